@@ -245,6 +245,25 @@ class NpProxy(object):
         return np.iscomplex(a)
 
     @_ov
+    def real_if_close(self, a, tol=100):
+        if is_sym(a):
+            # numpy: an array of complex type whose imaginary parts are ALL within tol machine epsilons of zero is returned as its
+            # real part, otherwise unchanged -- the outcome is a data-dependent condition: decided by the path driver
+            vals = [lift(v) for v in asobj(a).ravel()]
+            ims = [v.im for v in vals if isinstance(v, C)]
+            if not ims:
+                return a
+            bound = lift(Fraction(float(tol) * float(np.finfo(float).eps) if tol > 1 else float(tol)))
+            cond = None
+            for im in ims:
+                c = builtins.abs(im) < bound
+                cond = c if cond is None else B(z3.And(cond.t, c.t))
+            if builtins.bool(cond):
+                return emap(lambda v: lift(v).re if isinstance(lift(v), C) else v, a)
+            return a
+        return np.real_if_close(a, tol=tol)
+
+    @_ov
     def isrealobj(self, a):
         return not self.iscomplexobj(a)
 
@@ -542,6 +561,12 @@ class NpProxy(object):
 
         def pinv(self, m, *k, **kw):
             return pinv_contract(m, np.linalg.pinv, k, kw)
+
+        def inv(self, m, *k, **kw):
+            # for the square non-singular matrices of the contract the inverse IS the pseudo-inverse (P.M == I)
+            if is_sym(m) and (np.ndim(m) != 2 or np.shape(m)[0] != np.shape(m)[1]):
+                raise NeedsConcrete('inv of a non-square symbolic matrix')
+            return pinv_contract(m, np.linalg.inv, k, kw)
     linalg = _Linalg()
 
 
@@ -690,6 +715,11 @@ class LinalgProxy(object):
 
     def pinv(self, m, *a, **k):
         return pinv_contract(m, self._m.pinv, a, k)
+
+    def inv(self, m, *a, **k):
+        if is_sym(m) and (np.ndim(m) != 2 or np.shape(m)[0] != np.shape(m)[1]):
+            raise NeedsConcrete('inv of a non-square symbolic matrix')
+        return pinv_contract(m, self._m.inv, a, k)
 
     def norm(self, a, *k, **kw):
         return NpProxy.linalg.norm(a, *k, **kw)
@@ -863,7 +893,17 @@ def vc_len(a):
     return builtins.len(a)
 
 
-BUILTINS = {'abs': vc_abs, 'int': vc_int, 'float': vc_float, 'max': vc_max, 'min': vc_min}
+def vc_round(v, ndigits=None):
+    """builtin round of a symbolic real: an uninterpreted function of the value (congruence only), like np.round above"""
+    if isinstance(v, (R, C)):
+        v = lift(v)
+        if isinstance(v, C):
+            raise NeedsConcrete('round() of a symbolic complex value')
+        return UF1('round%s' % (ndigits if ndigits is not None else 0), v)
+    return builtins.round(v) if ndigits is None else builtins.round(v, ndigits)
+
+
+BUILTINS = {'abs': vc_abs, 'int': vc_int, 'float': vc_float, 'max': vc_max, 'min': vc_min, 'round': vc_round}
 
 
 @contextlib.contextmanager
